@@ -2,6 +2,7 @@ package harness
 
 import (
 	"fmt"
+	"os"
 	"strings"
 	"time"
 
@@ -30,10 +31,17 @@ type c02Params struct {
 	// ReadDelayMs makes every read(2) of the files take that long (virtual time): the session then
 	// spans dtail's timers (1 s read poll of the transport, 3 s truncation check, 5 s time-outs)
 	ReadDelayMs int
+	// Refused: the glob also matches entries that are not read: a sub-directory, a dangling symbolic link and
+	// (with DenyRule) a file the user's permission rules exclude
+	Refused bool
 }
 
 func (p c02Params) String() string {
-	return fmt.Sprintf("%s files=%v glob=%v catlimit=%d stall=%v@%d max=%d after=%d readdelay=%dms", p.Kind, p.Files, p.Glob, p.CatLimit, p.Stall, p.StallAt, p.Max, p.After, p.ReadDelayMs)
+	s := fmt.Sprintf("%s files=%v glob=%v catlimit=%d stall=%v@%d max=%d after=%d readdelay=%dms", p.Kind, p.Files, p.Glob, p.CatLimit, p.Stall, p.StallAt, p.Max, p.After, p.ReadDelayMs)
+	if p.Refused {
+		s += " +dir,dangling-link,denied-file matched by the glob"
+	}
+	return s
 }
 
 func c02FileLines(f, n int) []string {
@@ -46,9 +54,19 @@ func c02FileLines(f, n int) []string {
 
 func c02Setup(p c02Params) (paths []string, dir string) {
 	dir = fmt.Sprintf("c02/%s-%v-%v", p.Kind, p.Files, p.Glob)
+	if p.Refused {
+		dir += "-refused"
+	}
 	dir = strings.NewReplacer(" ", "_", "[", "", "]", "").Replace(dir)
 	for f, n := range p.Files {
 		paths = append(paths, WriteScratch(fmt.Sprintf("%s/f%d.log", dir, f), strings.Join(c02FileLines(f, n), "\n")+map[bool]string{true: "\n", false: ""}[n > 0]))
+	}
+	if p.Refused {
+		base := Scratch() + "/" + dir
+		os.MkdirAll(base+"/f7.log", 0o755) // a directory whose name matches the glob
+		os.Remove(base + "/f8.log")
+		os.Symlink("nowhere", base+"/f8.log")
+		WriteScratch(dir+"/f9denied.log", "f9l1M\n")
 	}
 	return paths, Scratch() + "/" + dir
 }
@@ -69,6 +87,9 @@ func c02Body(p c02Params, paths []string, dir string) (string, string) {
 	}
 	o := ClientOpts{Kind: p.Kind, Args: args, Mutate: func() {
 		config.Server.MaxConcurrentCats = p.CatLimit
+		if p.Refused {
+			config.Server.Permissions.Default = []string{"^/.*", "!denied"}
+		}
 		if p.ReadDelayMs > 0 {
 			vos.S.ReadDelay = time.Duration(p.ReadDelayMs) * time.Millisecond
 			vos.S.ReadDelayPrefix = Scratch() + "/c02/"
@@ -102,6 +123,9 @@ func c02Body(p c02Params, paths []string, dir string) (string, string) {
 			continue
 		}
 		var f, n int
+		if p.Refused && (strings.HasPrefix(l, "SERVER|") || strings.HasPrefix(l, "CLIENT|")) {
+			continue // the error report about an entry that is not read (serverless: the server part logs to the same stdout)
+		}
 		if _, err := fmt.Sscanf(l, "f%dl%dM", &f, &n); err != nil {
 			return "garbage", fmt.Sprintf("unexpected output line %q", l)
 		}
@@ -288,6 +312,8 @@ func c02ParamSets(tier string) (ps []c02Params, d int) {
 			{Kind: "cat", Files: []int{1, 2}, Glob: true, CatLimit: 1, ReadDelayMs: 3100, D: 1},
 			{Kind: "grep", Files: []int{3}, CatLimit: 2, Max: 2, After: 1, ReadDelayMs: 5200, D: 1},
 			{Kind: "cat", Files: []int{3}, CatLimit: 2, Stall: 61 * time.Second, StallAt: 3, D: 1},
+			{Kind: "cat", Files: []int{1, 2}, Glob: true, CatLimit: 1, Refused: true, D: 1},
+			{Kind: "grep", Files: []int{2}, Glob: true, CatLimit: 2, Max: 1, Refused: true, D: 1},
 		}, 2
 	}
 	for _, files := range [][]int{{0}, {1}, {2}, {0, 1}, {1, 0}, {1, 2}, {2, 2}, {0, 1, 2}, {1, 1, 1}} {
@@ -307,7 +333,10 @@ func c02ParamSets(tier string) (ps []c02Params, d int) {
 	ps = append(ps, c02Params{Kind: "grep", Files: []int{3}, CatLimit: 2, Max: 1, After: 1},
 		c02Params{Kind: "grep", Files: []int{2, 3}, CatLimit: 1, Max: 2, After: 0},
 		c02Params{Kind: "cat", Files: []int{101}, CatLimit: 2},
-		c02Params{Kind: "cat", Files: []int{100, 1}, Glob: true, CatLimit: 1})
+		c02Params{Kind: "cat", Files: []int{100, 1}, Glob: true, CatLimit: 1},
+		c02Params{Kind: "cat", Files: []int{1, 2}, Glob: true, CatLimit: 1, Refused: true},
+		c02Params{Kind: "cat", Files: []int{2}, Glob: true, CatLimit: 2, Refused: true},
+		c02Params{Kind: "grep", Files: []int{2}, Glob: true, CatLimit: 2, Max: 1, Refused: true})
 	return ps, 2
 }
 
@@ -317,7 +346,7 @@ func init() {
 		Level: "model_checking",
 		Rule: "stateless exploration of all schedules within a deviation bound (quick 1, thorough 2; deviations = preemption, non-first ready select case, demotion of a goroutine) of one complete dcat/dgrep session: " +
 			"the real client main body, serverless connector, server handler, read commands, readers and client handler; sessions of 1-3 files with 0-2 lines (plus 100/101 lines around the queue capacity), one command per file or one glob, " +
-			"cat limit 1-2, grep with max/after, consumer eager or stalled 50 ms..6 s before the k-th write; oracle: per file exactly its selected lines once and in order, exit status 0, termination before the horizon; " +
+			"cat limit 1-2, grep with max/after, globs that also match a directory, a dangling link and a file the permission rules deny, consumer eager or stalled 50 ms..6 s before the k-th write; oracle: per file exactly its selected lines once and in order, exit status 0, termination before the horizon; " +
 			"plus a 4-file session whose command stream is delivered in segments of 1..32768 bytes through a re-used transport buffer (as an SSH channel does); distinct = distinct (scenario, stdout+status) outcomes",
 		Assumptions: []string{
 			"code between two synchronisation operations is atomic (data-race freedom; checked by the free-running -race pass)",
